@@ -22,6 +22,14 @@ class PeerRefused(Exception):
     pass
 
 
+class PeerBadStatus(PeerRefused):
+    """The server answered the WebSocket handshake with an HTTP status other
+    than 101."""
+    def __init__(self, status):
+        super().__init__('handshake status %d' % status)
+        self.status = status
+
+
 class WsClosed(Exception):
     pass
 
@@ -97,6 +105,9 @@ def make_fake_websocket_module(peer, log):
     class WebSocketConnectionClosedException(WebSocketException):
         pass
 
+    class WebSocketBadStatusException(WebSocketException):
+        pass
+
     class WS:
         def __init__(self, conn):
             self.conn = conn
@@ -148,6 +159,9 @@ def make_fake_websocket_module(peer, log):
         try:
             conn = peer.ws_connect(url, opts.get('header') or {},
                                    opts.get('timeout'))
+        except PeerBadStatus as e:
+            # websocket-client: WebSocketBadStatusException
+            raise WebSocketBadStatusException(str(e))
         except PeerRefused as e:
             raise ConnectionError(str(e))
         w = WS(conn)
@@ -156,6 +170,7 @@ def make_fake_websocket_module(peer, log):
     m.WebSocketException = WebSocketException
     m.WebSocketTimeoutException = WebSocketTimeoutException
     m.WebSocketConnectionClosedException = WebSocketConnectionClosedException
+    m.WebSocketBadStatusException = WebSocketBadStatusException
     m.create_connection = create_connection
     return m
 
@@ -388,6 +403,16 @@ class FakeAioSession:
         try:
             conn = await self.peer.aws_connect(url, opts.get('headers') or {},
                                                opts.get('timeout'))
+        except PeerBadStatus as e:
+            # aiohttp: WSServerHandshakeError (a ClientResponseError, not a
+            # ClientConnectionError)
+            import yarl
+            from multidict import CIMultiDict, CIMultiDictProxy
+            ri = aiohttp.RequestInfo(yarl.URL(url), 'GET',
+                                     CIMultiDictProxy(CIMultiDict()),
+                                     yarl.URL(url))
+            raise aiohttp.client_exceptions.WSServerHandshakeError(
+                ri, (), status=e.status, message='Invalid response status')
         except PeerRefused as e:
             raise aiohttp.ClientConnectionError(str(e))
         return AWs(conn, self.log, self.peer)
@@ -569,7 +594,7 @@ class ScriptedServer:
       limit:    packets per POST body the server accepts (default 16, like
                 the package's own server); a longer body is answered 200
                 and not processed, as the real servers do
-      ws:       'ok' | 'refuse'
+      ws:       'ok' | 'refuse' | 'status403' (handshake answered 403)
       probe:    'ok' | 'wrong' | 'silent' | 'close' | 'upgrade-write-fails'
       ws_open:  'ok' | 'garbage' | 'nonopen' | 'close'  (websocket-only open)
     The driver pushes packets with push()/ws_push() and may drop / close.
@@ -744,6 +769,8 @@ class ScriptedT(ScriptedServer):
                               'body': None, 't': self.now()})
         if self.script.get('ws', 'ok') == 'refuse' or self.dropped:
             raise PeerRefused('ws refused')
+        if self.script.get('ws') == 'status403':
+            raise PeerBadStatus(403)
         conn = TConn(self, 'sid' in q)
         self.ws = conn
         if 'sid' not in q:
@@ -858,6 +885,8 @@ class ScriptedA(ScriptedServer):
                               'body': None, 't': self.now()})
         if self.script.get('ws', 'ok') == 'refuse' or self.dropped:
             raise PeerRefused('ws refused')
+        if self.script.get('ws') == 'status403':
+            raise PeerBadStatus(403)
         conn = AConn(self, 'sid' in q)
         self.ws = conn
         if 'sid' not in q:
